@@ -117,7 +117,8 @@ class CompoundLowLevelWCS(BaseWCSWrapper):
                 world_arrays.extend(world_arrays_sub)
             else:
                 world_arrays.append(world_arrays_sub)
-        return tuple(world_arrays)
+        # As for any low level WCS, a single array is returned if there is only one world axis.
+        return world_arrays[0] if self.world_n_dim == 1 else tuple(world_arrays)
 
     def world_to_pixel_values(self, *world_arrays):
         pixel_arrays = []
@@ -142,7 +143,9 @@ class CompoundLowLevelWCS(BaseWCSWrapper):
                             "The world inputs for shared pixel axes did not result in a pixel "
                             f"coordinate to within {self.atol} relative accuracy."
                         )
-        return self.mapping.inverse(*pixel_arrays)
+        pixel_arrays = self.mapping.inverse(*pixel_arrays)
+        # As for any low level WCS, a single array is returned if there is only one pixel axis.
+        return pixel_arrays[0] if self.pixel_n_dim == 1 else pixel_arrays
 
     @property
     def world_axis_object_components(self):
